@@ -5,12 +5,12 @@ ID = 'C13'
 GENERATORS = ['gen_comp']
 COQ_TARGETS = ['Props/C13.vo', 'Run/RunC13.vo']
 PROPS_MODULE = 'Props.C13'
-THEOREMS_FINAL = ['hidden_irrelevant', 'noncovering_irrelevant', 'alpha_invisible_cell_irrelevant',
-            'alpha_invisible_cell_irrelevant_covered_below', 'alpha_invisible_cell_upto_font_page',
-            'opaque_hides', 'translate', 'layer_contribution_translates',
-            'insert_empty_alpha', 'insert_empty_alpha_upto_font_page', 'edit_hidden_layer',
-            'translate_whole_stack', 'get_char_spec_plain', 'get_char_never_panics_in_range']
-THEOREMS = ['placeholder']
+THEOREMS = ['hidden_irrelevant', 'edit_hidden_layer', 'noncovering_irrelevant',
+            'alpha_invisible_cell_irrelevant', 'alpha_invisible_cell_irrelevant_covered_below',
+            'alpha_invisible_cell_upto_font_page', 'opaque_hides', 'layer_contribution_translates', 'translate',
+            'insert_empty_alpha', 'insert_empty_alpha_upto_font_page', 'all_invisible_is_empty',
+            'get_char_spec_refines', 'get_char_spec_plain', 'get_char_never_panics_in_range',
+            'small_coordinates_do_not_overflow']
 SWEEP_LEMMAS = []
 TRUSTED = ['Coq 8.16.1 kernel (+ vm_compute for the non-vacuity Examples and model evaluation); no axioms (Print Assumptions: closed)',
            'translator/gen_comp.py + vlib/rustsrc.py (constants and default/invisible cell literals, template-matched)',
@@ -239,7 +239,7 @@ def get_font0(ctx):
 
 def correspondence(ctx):
     font0 = get_font0(ctx)
-    n = ctx.n(300, 6000)
+    n = ctx.n(300, 10000)
     items = []
     for i in range(n):
         k = i % 10
@@ -250,28 +250,34 @@ def correspondence(ctx):
         items.append(('directed', st, rect))
     cases = [enc_case(st, rect) for _, st, rect in items]
     impl = ctx.impl(cases)
-    model = ctx.model(coq_header(font0), [coq_case(st, rect) for _, st, rect in items], timeout=1200)
+    # the model's observation is compared with the implementation's inside Coq (check_comp): [] = equal
+    def expected(r):
+        if r is not None and r[0] == 'ok': return r[1]
+        if r is not None and r[0] == 'panic' and 'position.rs' in r[1]: return [-1]
+        return [-3]
+    exprs = ['check_comp' + coq_case(st, rect)[len('run_comp'):] + ' [' + '; '.join(z(v) for v in expected(r)) + ']'
+             for (_, st, rect), r in zip(items, impl)]
+    model = ctx.model(coq_header(font0), exprs, timeout=1500)
     dis = []; dist = {}; nontrivial = 0; panics = 0; positions_n = 0
     _state['disagree'] = []
     for (kind, st, rect), c, r, m in zip(items, cases, impl, model):
         dist[kind] = dist.get(kind, 0) + 1
-        if r is not None and r[0] == 'panic':
-            want = [-1]; panics += 1
-            ok = (m == want) and 'position.rs' in r[1]
-        else:
-            ok = r is not None and r[0] == 'ok' and m is not None and r[1] == m
-            if ok:
-                positions_n += len(m) // 5
-                if any((m[5*i+3] & INV) == 0 for i in range(len(m) // 5)): nontrivial += 1
+        ok = (m == []) and r is not None and r[0] in ('ok', 'panic')
+        if ok and r[0] == 'panic': panics += 1
+        if ok and r[0] == 'ok':
+            o = r[1]
+            positions_n += len(o) // 5
+            if any((o[5*i+3] & INV) == 0 for i in range(len(o) // 5)): nontrivial += 1
         if not ok:
-            d = {'case': c if len(c) < 3000 else c[:3000] + '…', 'impl': r if r is None or r[0] != 'ok' else 'ok', 'model': None if m is None else 'evaluated'}
-            if r is not None and r[0] == 'ok' and m is not None:
-                g1 = grid(r[1], rect); g2 = grid(m, rect)
+            d = {'case': c if len(c) < 3000 else c[:3000] + '…', 'impl': r if r is None or r[0] != 'ok' else 'ok',
+                 'model': None if m is None else ('panic' if m[1:] == [-1] else 'evaluated')}
+            if r is not None and r[0] == 'ok' and m:
+                g1 = grid(r[1], rect); g2 = grid(m[1:], rect)
                 if g1 and g2:
                     bad = [p for p in positions(rect) if g1[p] != g2[p]]
                     d['first_difference'] = {'pos': bad[0], 'impl': g1[bad[0]], 'model': g2[bad[0]]} if bad else None
                 else:
-                    d['lengths'] = [len(r[1]), len(m)]
+                    d['lengths'] = [len(r[1]), len(m) - 1]
             dis.append(d)
             _state['disagree'].append(st)
     dist['panic_cases(i32 overflow, both sides)'] = panics
